@@ -28,9 +28,13 @@ func main() {
 		fs := flag.NewFlagSet("check", flag.ExitOnError)
 		tier := fs.String("tier", "", "quick|thorough")
 		repo := fs.String("repo", "/repo", "repository root")
+		noev := fs.Bool("noevidence", false, "write evidence and replay files to a scratch directory (selftest)")
 		id := os.Args[2]
 		fs.Parse(os.Args[3:])
 		repoDir = *repo
+		if *noev {
+			evidenceDir = scratch()
+		}
 		if *tier == "" {
 			*tier = os.Getenv("VERIF_TIER")
 		}
